@@ -434,6 +434,20 @@ def _b_filter(I, a, k):
 
 def _b_map(I, a, k):
     f = a[0]
+    if len(a) == 2 and isinstance(I.resolve(a[1]), SRecList):
+        # map(f, list of records) for a scalar-valued f: the array index -> f(element)
+        L = _L()
+        lst = I.resolve(a[1])
+        q = z3.Int(I.p.fresh_name('q_map'))
+        I.noforking += 1
+        try:
+            v = I.call(f, [L.RecView(lst, Sym(INT, q))], {})
+        finally:
+            I.noforking -= 1
+        kind = I.kind_of(v)
+        if kind is None or not isinstance(v, Sym):
+            raise Unsupported('map over a record list with a non-scalar result')
+        return SArr(z3.Lambda([q], v.t), lst.n, kind)
     seqs = [I.iterate_concrete(s) for s in a[1:]]
     return [I.call(f, list(t), {}) for t in zip(*seqs)]
 
